@@ -260,6 +260,8 @@ def main(argv=None):
         signal.alarm(0)
 
         nviol, known_keys = report(pid, mod, res, known, minimise=True)
+        if not pick_samples(res):
+            raise HarnessError('no sample cases were recorded (evidence would be invalid)')
         if nviol == 0:
             # generator sanity is only meaningful when no unlisted failure cut cases short
             for lab in plan.get('required_classes', []):
